@@ -48,6 +48,20 @@ Definition m_nested (m : msgD) := let 'Msg _ _ _ n _ _ := m in n.
 Definition m_enums (m : msgD) := let 'Msg _ _ _ _ e _ := m in e.
 Definition m_map_entry (m : msgD) := let 'Msg _ _ _ _ _ b := m in b.
 
+(* iteration over the nested messages that are not map entries (the template's  if not submessage.map) *)
+Definition map_non_entry {B} (f : msgD -> B) : list msgD -> list B :=
+  fix go (l : list msgD) : list B :=
+    match l with
+    | [] => []
+    | x :: l' => if m_map_entry x then go l' else f x :: go l'
+    end.
+Definition all_non_entry (f : msgD -> bool) : list msgD -> bool :=
+  fix go (l : list msgD) : bool :=
+    match l with
+    | [] => true
+    | x :: l' => (if m_map_entry x then true else f x) && go l'
+    end.
+
 Record fileD := mkFile { fd_pkg : list string; fd_module : string; fd_enums : list enumD; fd_msgs : list msgD }.
 (* what the schema of the whole API contributes: naming.proto_package, naming.version, the Python package of the library
    (module_namespace + versioned_module_name), and the module names Proto.names adds for this file (modules reached under
@@ -201,12 +215,7 @@ Fixpoint emit_msg (api : apiD) (names : list string) (pkg : list string) (module
   let 'Msg n fs os ns es _ := m in
   let at_ := mkAddr pkg module parent n in
   DMsg n
-    (map emit_enum es ++
-     (fix go (l : list msgD) : list decl :=
-        match l with
-        | [] => []
-        | x :: l' => if m_map_entry x then go l' else emit_msg api names pkg module (parent ++ [n])%list x :: go l'
-        end) ns)%list
+    (map emit_enum es ++ map_non_entry (emit_msg api names pkg module (parent ++ [n])%list) ns)%list
     (dict_fields (map (emit_field api names at_ os ns) fs)).
 
 Definition file_addr (f : fileD) : addr := mkAddr (fd_pkg f) (fd_module f) [] "".
@@ -400,6 +409,17 @@ Definition omap {A B} (f : A -> option B) : list A -> option (list B) :=
     | x :: l' => match f x, go l' with Some y, Some ys => Some (y :: ys) | _, _ => None end
     end.
 
+(* a sequence of class statements: the enum and message descriptors they create, in order *)
+Definition rt_seq (f : decl -> option (list renum * list rmsg)) : list decl -> option (list renum * list rmsg) :=
+  fix go (l : list decl) : option (list renum * list rmsg) :=
+    match l with
+    | [] => Some ([], [])
+    | x :: l' => match f x, go l' with
+                 | Some (es, ms), Some (es', ms') => Some ((es ++ es')%list, (ms ++ ms')%list)
+                 | _, _ => None
+                 end
+    end.
+
 Section RT.
   Variable tab : modtab.
   Variable pkg : string.          (* __protobuf__.package *)
@@ -453,14 +473,7 @@ Section RT.
     | DEnum n vals => match rt_enum n vals with Some e => Some ([e], []) | None => None end
     | DMsg n body fs =>
         let full := prefix ++ "." ++ n in
-        match (fix go (l : list decl) : option (list renum * list rmsg) :=
-                 match l with
-                 | [] => Some ([], [])
-                 | x :: l' => match rt_msg full x, go l' with
-                              | Some (es, ms), Some (es', ms') => Some ((es ++ es')%list, (ms ++ ms')%list)
-                              | _, _ => None
-                              end
-                 end) body with
+        match rt_seq (rt_msg full) body with
         | Some (es, ms) =>
             match rt_fields full (real_oneofs fs []) (body_locals full body) 0 fs with
             | Some (rfs, entries) =>
@@ -550,13 +563,15 @@ Fixpoint view_in (pkg : list string) (module : string) (parent : list string) (m
   let 'Msg n fs os ns es _ := m in
   let at_ := mkAddr pkg module parent n in
   MV n (map (field_view_in at_ os ns) fs)
-     ((fix go (l : list msgD) : list mview :=
-         match l with
-         | [] => []
-         | x :: l' => if m_map_entry x then go l' else view_in pkg module (parent ++ [n])%list x :: go l'
-         end) ns)
+     (map_non_entry (view_in pkg module (parent ++ [n])%list) ns)
      (map enum_view es).
 
+Definition map_non_entry_r {B} (f : rmsg -> B) : list rmsg -> list B :=
+  fix go (l : list rmsg) : list B :=
+    match l with
+    | [] => []
+    | x :: l' => if rm_map_entry x then go l' else f x :: go l'
+    end.
 Definition find_entry (tname full : string) (nested : list rmsg) : option rmsg :=
   find (fun e => rm_map_entry e && String.eqb tname (full ++ "." ++ rm_name e)) nested.
 Definition field_view_rt (full : string) (oneofs : list string) (nested : list rmsg) (rf : rfield) : fview :=
@@ -571,11 +586,7 @@ Fixpoint view_rt (prefix : string) (r : rmsg) : mview :=
   let 'RMsg n fs os ns es _ := r in
   let full := prefix ++ "." ++ n in
   MV n (map (field_view_rt full os ns) fs)
-     ((fix go (l : list rmsg) : list mview :=
-         match l with
-         | [] => []
-         | x :: l' => if rm_map_entry x then go l' else view_rt full x :: go l'
-         end) ns)
+     (map_non_entry_r (view_rt full) ns)
      es.
 
 (* ------------------------------------------------------------------ well-formedness (boolean) *)
@@ -584,19 +595,24 @@ Fixpoint nodup_str (l : list string) : bool :=
 Definition map_attrs (at_ : addr) (nested : list msgD) (fs : list fieldD) : list string :=
   flat_map (fun f => match entry_of at_ nested f with Some _ => [field_attr (f_name f)] | None => [] end) fs.
 Definition enum_ok (e : enumD) : bool := match rt_enum (e_name e) (e_values e) with Some _ => true | None => false end.
-(* attributes pairwise distinct (beyond protoc: `class` and `class_` are distinct proto names), entry names of the map
-   fields pairwise distinct, every enum has zero as its least number (beyond protoc: negative numbers are legal) *)
-Fixpoint wf_msg (pkg : list string) (module : string) (parent : list string) (m : msgD) : bool :=
+(* attributes pairwise distinct (protoc guarantees it for proto3: `class` and `class_` have the same JSON name), runtime
+   entry names of the map fields pairwise distinct and not the type of a repeated message field of the same message (protoc
+   guarantees it except when a reserved word is involved), every enum has zero as its least number (BEYOND protoc: negative
+   numbers are legal in proto3) *)
+Definition entry_clash (full : string) (at_ : addr) (nested : list msgD) (fs : list fieldD) (f : fieldD) : bool :=
+  match entry_of at_ nested f with
+  | Some _ => false
+  | None => f_repeated f && mem_str (type_tname (f_type f)) (map (fun a => full ++ "." ++ entry_name a) (map_attrs at_ nested fs))
+  end.
+Fixpoint wf_msg (pkg : list string) (module : string) (prefix : string) (parent : list string) (m : msgD) : bool :=
   let 'Msg n fs os ns es _ := m in
   let at_ := mkAddr pkg module parent n in
+  let full := prefix ++ "." ++ n in
   nodup_str (map (fun f => field_attr (f_name f)) fs)
   && nodup_str (map entry_name (map_attrs at_ ns fs))
+  && negb (existsb (entry_clash full at_ ns fs) fs)
   && forallb enum_ok es
-  && (fix go (l : list msgD) : bool :=
-        match l with
-        | [] => true
-        | x :: l' => (if m_map_entry x then true else wf_msg pkg module (parent ++ [n])%list x) && go l'
-        end) ns.
+  && all_non_entry (wf_msg pkg module full (parent ++ [n])%list) ns.
 
 (* the class-body scope the model builds, computed from the INPUT message: nested enums, then nested non-entry messages *)
 Definition in_locals (full : string) (m : msgD) : scope :=
@@ -616,14 +632,10 @@ Section RefsOk.
     | f :: fs' => field_ref_ok pkgs at_ nested locals f
                   && fields_ref_ok pkgs at_ nested ((field_attr (f_name f), PVOther) :: locals) fs'
     end.
-  Fixpoint refs_ok (pkg : list string) (module : string) (parent : list string) (m : msgD) : bool :=
+  Fixpoint refs_ok (pkg : list string) (module : string) (prefix : string) (parent : list string) (m : msgD) : bool :=
     let 'Msg n fs os ns es _ := m in
     let at_ := mkAddr pkg module parent n in
-    let full := dotted pkg ++ "." ++ dotted (parent ++ [n])%list in
+    let full := prefix ++ "." ++ n in
     fields_ref_ok (dotted pkg) at_ ns (in_locals full m) fs
-    && (fix go (l : list msgD) : bool :=
-          match l with
-          | [] => true
-          | x :: l' => (if m_map_entry x then true else refs_ok pkg module (parent ++ [n])%list x) && go l'
-          end) ns.
+    && all_non_entry (refs_ok pkg module full (parent ++ [n])%list) ns.
 End RefsOk.
